@@ -1,0 +1,26 @@
+// Copyright © 2024 Attestant Limited.
+// Licensed under the Apache License, Version 2.0 (the "License");
+// you may not use this file except in compliance with the License.
+// You may obtain a copy of the License at
+//
+//     http://www.apache.org/licenses/LICENSE-2.0
+//
+// Unless required by applicable law or agreed to in writing, software
+// distributed under the License is distributed on an "AS IS" BASIS,
+// WITHOUT WARRANTIES OR CONDITIONS OF ANY KIND, either express or implied.
+// See the License for the specific language governing permissions and
+// limitations under the License.
+
+//go:build !verif
+
+// Package verifhook provides instrumentation points for external verification
+// harnesses.  Without the "verif" build tag every function is a no-op.
+package verifhook
+
+// Point marks an instrumentation point.  It always returns nil in normal builds.
+func Point(_ string, _ ...[]byte) error {
+	return nil
+}
+
+// Done marks the end of an instrumented region.  It does nothing in normal builds.
+func Done(_ string, _ ...[]byte) {}
